@@ -54,6 +54,9 @@ def generate(tier, rng):
                 for q in sig:
                     if q['d'] and q['n'] != p['n']:
                         variants.append((p['n'], [q['n']], False))      # a context parameter AND a predicate-excluded one
+            if sig:
+                variants.append((None, [], 'static'))                   # a @staticmethod member of a view: no instance parameter
+                variants.append(('context', [], 'static'))
             if sig and sig[0]['k'] == 'pk':
                 variants.append((None, [], True))                       # view method
                 variants.append(('context', [], True))
@@ -67,6 +70,8 @@ def generate(tier, rng):
                     m['excluded'] = excluded
                 if view:
                     m['view'] = True
+                if view == 'static':
+                    m['static'] = True
                 keys = list(dict.fromkeys([p['n'] for p in sig] + ['zz', 'self'] + ([ctx] if ctx else [])))
                 keysets = [list(s) for r in range(len(keys) + 1) for s in itertools.combinations(keys, r)]
                 if len(keysets) > 40 and not thorough:
@@ -75,6 +80,8 @@ def generate(tier, rng):
                 # behind an ordinary functools.wraps decorator / with defaults that are not JSON values
                 if not view and (thorough or rng.random() < 0.3):
                     yield {'suite': NAME, 'op': 'specbind', 'method': dict(m, deco=True), 'keysets': keysets, 'tag': 'specbind-deco'}
+                if any(not p['d'] for p in sig) and not view and (thorough or rng.random() < 0.3):
+                    yield {'suite': NAME, 'op': 'specbind', 'method': dict(m, optann=True), 'keysets': keysets, 'tag': 'specbind-optional-annotation'}
                 if any(p['d'] for p in sig) and (thorough or rng.random() < 0.3):
                     yield {'suite': NAME, 'op': 'specbind', 'method': dict(m, objdefault=True), 'keysets': keysets, 'tag': 'specbind-objdefault'}
                 # the type validator on the binding side (one validator object for all methods, as an application has)
@@ -109,7 +116,8 @@ def build(c):
     excluded = m.get('excluded') or []
     pred = (lambda name, ann, default: name in excluded) if excluded else None
     view = bool(m.get('view'))
-    obj = S.make_callable('specbind:' + key[:60], m['sig'], False, view, fresh=True, deco=bool(m.get('deco')))
+    obj = S.make_callable('specbind:' + key[:60], m['sig'], False, view, fresh=True, deco=bool(m.get('deco')),
+                          static_ctx=(('<CTX>' if m.get('ctx') else '<none>') if m.get('static') else None))
     target = obj.vm if view else obj
     if m.get('objdefault'):
         # defaults that are not JSON values (a sentinel object): optional all the same
@@ -118,6 +126,11 @@ def build(c):
             raw.__defaults__ = tuple(_SENTINEL for _ in raw.__defaults__)
         if raw.__kwdefaults__:
             raw.__kwdefaults__ = {k: _SENTINEL for k in raw.__kwdefaults__}
+    if m.get('optann'):
+        # required parameters annotated Optional[int]: nullable is not optional
+        import typing
+        raw = getattr(target, '__wrapped__', target)
+        raw.__annotations__ = {p['n']: typing.Optional[typing.Any] for p in m['sig'] if not p['d']}
     if c.get('validator') == 'pydantic':
         _pydantic_validator(tuple(excluded)).validate(target)
     elif pred:
@@ -192,9 +205,18 @@ def relevant(prop, c):
 
 
 def region(prop, c):
-    if prop == 'C17' and c['method'].get('view'):
+    if prop == 'C17' and c['method'].get('view') and not c['method'].get('static'):
         return 'view-method:implicit-first-param'
     return None
+
+
+def model_case(c, impl_out):
+    if c['method'].get('static'):
+        # a static member has no instance parameter and its view takes the context through the constructor: for what is
+        # published and what binds it is a plain function without a context parameter
+        m = {k: v for k, v in c['method'].items() if k not in ('view', 'static', 'ctx')}
+        return dict(c, method=m)
+    return c
 
 
 def project(prop, c, out):
@@ -219,7 +241,7 @@ def oracle(prop, c, out):
     f = []
     if prop != 'C17':
         return f
-    view = bool(c['method'].get('view'))
+    view = bool(c['method'].get('view')) and not c['method'].get('static')
     key = 'view-method:implicit-first-param' if view else None
     for kind, dk, rk, ek in (('OpenAPI', 'documented', 'required', 'openapi_error'), ('OpenRPC', 'rpc_documented', 'rpc_required', 'openrpc_error')):
         if ek in out:
